@@ -1,6 +1,8 @@
 // gencert writes keys/<name>.key and keys/<name>.crt: an RSA-2048 key under a self-signed certificate with the given validity window.
-// Usage: go run ./tools/gencert <name> <notBefore RFC3339> <notAfter RFC3339> [ca | issued-by:<ca fixture name>]
-// "ca" makes a self-signed CA certificate; "issued-by:x" makes a leaf signed by the CA fixture keys/x.{key,crt}.
+// Usage: go run ./tools/gencert <name> <notBefore RFC3339> <notAfter RFC3339> [ca | issued-by:<ca fixture name> | twin-of:<fixture name>]
+// "ca" makes a self-signed CA certificate; "issued-by:x" makes a leaf signed by the CA fixture keys/x.{key,crt}; "twin-of:x" makes a
+// self-signed certificate for a NEW key under the subject name and serial number of fixture x (what a key rollover with fixed-serial
+// tooling produces).
 // (the fixtures idpnext / idpfar / idpold / idpancient were made with it; fixtures are committed, the checks never generate keys)
 package main
 
@@ -42,6 +44,14 @@ func main() {
 		if os.Args[4] == "ca" {
 			tpl.IsCA = true
 			tpl.KeyUsage = x509.KeyUsageCertSign | x509.KeyUsageDigitalSignature
+		} else if tw, ok := strings.CutPrefix(os.Args[4], "twin-of:"); ok {
+			cb, _ := os.ReadFile("keys/" + tw + ".crt")
+			cblk, _ := pem.Decode(cb)
+			oc, err := x509.ParseCertificate(cblk.Bytes)
+			if err != nil {
+				panic(err)
+			}
+			tpl.SerialNumber, tpl.Subject = oc.SerialNumber, oc.Subject
 		} else if ca, ok := strings.CutPrefix(os.Args[4], "issued-by:"); ok {
 			cb, _ := os.ReadFile("keys/" + ca + ".crt")
 			kb, _ := os.ReadFile("keys/" + ca + ".key")
